@@ -25,6 +25,8 @@ RULES = {
     "C13-c": "FRESH: a _set_context consumer keeps only immutable derivations or deep copies of its argument",
     "C13-d": "TYPESTATE: exits that leave _static_context unset store the caught LenaKeyError in _exc; getters re-raise it",
     "C13-e": "no leak: static-context fields reach flow values only in UpdateContextFromStatic.run through deepcopy",
+    "C13-f": "ROUTING: every branch of a split that has a context takes part in the intersection / receives the enclosing "
+             "context, the only test on that path being the hasattr() test of the branch",
 }
 
 # classes that own or thread the context object they are handed (reason in DESIGN.md C13-c)
@@ -485,8 +487,83 @@ def check_no_leak(ctx):
                               detail="_static_context read only in %s.%s" % (cls.name, name))
 
 
+# -- C13-f ---------------------------------------------------------------------
+
+def check_split_routing(ctx):
+    """LenaSplit: the intersection is over the contexts of *all* branches that have one (an empty context of one
+    branch makes the intersection empty: it is not skipped), and the enclosing context reaches every branch."""
+    res = ctx.res
+    for meth, callee, what in (("_get_context", "_get_context", "takes part in the intersection"),
+                               ("_set_context", "_set_context", "receives the enclosing context")):
+        fn = ctx.tree.func("lena.core.split", "LenaSplit." + meth)
+        loops = [l for l in A.walk_local(fn) if isinstance(l, ast.For)]
+        if not ctx.require(len(loops) == 1 and isinstance(loops[0].target, ast.Name), "C13-f", fn,
+                           "LenaSplit.%s: expected one loop over the branches" % meth):
+            continue
+        loop = loops[0]
+        var = loop.target.id
+        order = K.iter_order(loop.iter, "self._seqs")
+        if order == "unknown":
+            ctx.unknown("C13-f", loop, "LenaSplit.%s iterates `%s`" % (meth, A.src(loop.iter)))
+            continue
+        ctx.check("C13-f", order == "forward", loop, "LenaSplit.%s iterates `%s`, not every branch of self._seqs" % (meth, A.src(loop.iter)),
+                  detail="LenaSplit.%s visits every branch" % meth, construct="%s-iter" % meth)
+        is_has = lambda t: isinstance(t, ast.Call) and res.call_canon(t) == "builtins.hasattr" and len(t.args) == 2 \
+            and A.src(t.args[0]) == var and A.const(t.args[1]) == callee
+        n = 0
+        for p in P.loop_body_paths(loop):
+            lits = p.literals()
+            has = [pol for t, pol in lits if is_has(t)]
+            other = [(t, pol) for t, pol in lits if not is_has(t)]
+            calls = [c for _, c in p.calls() if isinstance(c.func, ast.Attribute) and c.func.attr == callee and A.src(c.func.value) == var]
+            if has and has[-1] is False:
+                continue
+            n += 1
+            ok = len(calls) == 1 and not other and p.end in ("fall", "continue")
+            if ok and meth == "_get_context":
+                apps = [c for _, c in p.calls() if isinstance(c.func, ast.Attribute) and c.func.attr in ("append",)
+                        and len(c.args) == 1]
+                stored = False
+                for a in apps:
+                    v = a.args[0]
+                    if v is calls[0]:
+                        stored = True
+                    elif isinstance(v, ast.Name):
+                        ds = [s2 for s2 in p.stmts() if isinstance(s2, ast.Assign) and any(isinstance(t, ast.Name) and t.id == v.id for t in s2.targets)]
+                        stored = stored or (len(ds) == 1 and ds[0].value is calls[0])
+                ok = stored and len(apps) == 1
+            why = "on the path [%s] a branch that has %s %s" % (
+                p.describe(4), callee, "is called %d times" % len(calls) if len(calls) != 1 else
+                ("is subject to a further test (%s): a branch with an empty (or otherwise special) context is skipped, although an "
+                 "empty context of one branch makes the common context empty" % ", ".join(A.src(t) for t, _ in other) if other
+                 else "does not contribute its context to the list that is intersected"))
+            ctx.check("C13-f", ok, loop, "LenaSplit.%s: %s" % (meth, why),
+                      detail="LenaSplit.%s [%s]: a branch with %s %s" % (meth, p.describe(3), callee, what),
+                      construct="%s-path:%s" % (meth, p.describe(4)), path=p)
+        ctx.instances_floor("C13-f/" + meth, n, 1, "paths of the branch loop of LenaSplit.%s on which the branch has %s" % (meth, callee))
+    # the intersection is over exactly that list
+    fn = ctx.tree.func("lena.core.split", "LenaSplit._get_context")
+    inter = [c for c in A.walk_local(fn) if isinstance(c, ast.Call) and res.call_canon(c) == "lena.context.functions.intersection"]
+    apps = [c for c in A.walk_local(fn) if isinstance(c, ast.Call) and isinstance(c.func, ast.Attribute) and c.func.attr == "append"]
+    ok = len(inter) == 1 and len(apps) == 1 and len(inter[0].args) == 1 and isinstance(inter[0].args[0], ast.Starred) \
+        and A.src(inter[0].args[0].value) == A.src(apps[0].func.value) and not inter[0].keywords \
+        and A.enclosing(inter[0], (ast.For, ast.While, ast.If)) is None
+    ctx.check("C13-f", ok, fn, "LenaSplit._get_context does not return intersection(*<contexts of all branches>) (level-limited or "
+              "partial intersection)", detail="common context = intersection of all collected contexts", construct="get-intersection")
+    # the early return of _set_context only for an empty context
+    fn = ctx.tree.func("lena.core.split", "LenaSplit._set_context")
+    param = [p for p in A.func_params(fn) if p != "self"][0]
+    for r in [r for r in A.walk_local(fn) if isinstance(r, ast.Return)]:
+        conds = enclosing_conditions(r, fn)
+        ok = len(conds) == 1 and A.src(conds[0][0]) == "not %s" % param and conds[0][1] is True
+        ctx.check("C13-f", ok, r, "LenaSplit._set_context returns early under `%s`: branches are left without the enclosing "
+                  "context" % " and ".join(A.src(t) for t, _ in conds), detail="early return only for an empty context",
+                  construct="set-early-return")
+
+
 def check(ctx):
     check_fold(ctx)
+    check_split_routing(ctx)
     check_getters(ctx)
     check_consumers(ctx)
     check_error_surfacing(ctx)
@@ -494,6 +571,11 @@ def check(ctx):
 
 
 VARIANTS = [
+    M("split-skips-empty-context", "lena/core/split.py", "                contexts.append(seq._get_context())", "                context = seq._get_context()\n                if context:\n                    contexts.append(context)", ["C13-f"]),
+    M("split-first-branch-only", "lena/core/split.py", "                contexts.append(seq._get_context())\n", "                contexts.append(seq._get_context())\n                break\n", ["C13-f"]),
+    M("split-set-skips-first", "lena/core/split.py", "        for seq in self._seqs:\n            if hasattr(seq, \"_set_context\"):", "        for seq in self._seqs[1:]:\n            if hasattr(seq, \"_set_context\"):", ["C13-f"]),
+    M("split-intersection-level", "lena/core/split.py", "        context = lena.context.intersection(*contexts)", "        context = lena.context.intersection(*contexts, level=1)", ["C13-f"]),
+    TW("split-get-local", "lena/core/split.py", "                contexts.append(seq._get_context())", "                branch_context = seq._get_context()\n                contexts.append(branch_context)"),
     M("fold-reversed", "lena/core/lena_sequence.py", "        for el in self._seq:\n            if hasattr(el, \"_set_context\")",
       "        for el in reversed(self._seq):\n            if hasattr(el, \"_set_context\")", ["C13-a"]),
     M("getter-no-copy", "lena/core/lena_sequence.py", "        return deepcopy(sc)", "        return sc", ["C13-b"]),
